@@ -210,8 +210,14 @@ def side_sets(max_n: int, cams, labels) -> List[List[Tuple[Any, str, str]]]:
     return out
 
 
-def build(spec: List[Tuple[Any, str, str]], family: str, est: bool) -> List[Any]:
-    return [O.obj2d(None, lab, family=family, score=0.9 if est else 1.0, uuid=u, frame=c) for c, u, lab in spec]
+ALIAS = {"green": "crosswalk_green", "red": "crosswalk_red", "unknown": "crosswalk_unknown", "red_right_diagonal": "red_rightdiagonal", "red_left_diagonal": "red_leftdiagonal"}
+
+
+def build(spec: List[Tuple[Any, str, str]], family: str, est: bool, alias: bool = False) -> List[Any]:
+    """alias=True: the estimates carry another registered spelling of their label's name (an alias or the upper-case
+    name) than the ground truth; the converted label - which is what pairing and scoring are about - is the same."""
+    raw = (lambda lab: ALIAS.get(lab, lab.upper())) if (alias and est) else (lambda lab: None)  # noqa: E731
+    return [O.obj2d(None, lab, family=family, score=0.9 if est else 1.0, uuid=u, frame=c, raw_name=raw(lab)) for c, u, lab in spec]
 
 
 def score_all(ctx: Ctx, results: List[Any], gts: List[Any], family: str, labels: List[str]) -> None:
@@ -237,9 +243,10 @@ def run(ctx: Ctx) -> None:
             for ei, es in enumerate(sets):
                 if not ctx.mine(ei):
                     continue
-                ests = build(es, family, True)
+                ests_plain, ests_alias = build(es, family, True), build(es, family, True, alias=True)
                 for gi, gs in enumerate(sets):
                     gts = build(gs, family, False)
+                    ests = ests_alias if (ei + gi) % 2 == 1 else ests_plain
                     for uf in ((False, True) if family == "traffic_light" else (False,)):
                         idx += 1
                         ctx.begin_case("exhaustive", ei * len(sets) + gi, family=family, ests=[(str(c), u, l) for c, u, l in es], gts=[(str(c), u, l) for c, u, l in gs], uuid_first=uf)
@@ -270,7 +277,7 @@ def run(ctx: Ctx) -> None:
             ests_spec = list({(c, u): (c, u, l) for c, u, l in ests_spec}.values())
             r.shuffle(ests_spec)
             r.shuffle(gts_spec)
-            ests, gts = build(ests_spec, family, True), build(gts_spec, family, False)
+            ests, gts = build(ests_spec, family, True, alias=r.random() < 0.5), build(gts_spec, family, False)
             uf = r.random() < 0.5
             ctx.begin_case("random", i, family=family, n_est=len(ests), n_gt=len(gts), uuid_first=uf)
             with ctx.case_guard("random"):
@@ -334,7 +341,7 @@ def run(ctx: Ctx) -> None:
             n = r.randint(1, 8)
             gts_spec = [(r.choice(CAMS), f"id{k}", r.choice(labels)) for k in range(n)]
             ests_spec = [(c, u, l if r.random() < 0.6 else r.choice(labels)) for c, u, l in gts_spec if r.random() < 0.85]
-            ests, gts = build(ests_spec, "traffic_light", True), build(gts_spec, "traffic_light", False)
+            ests, gts = build(ests_spec, "traffic_light", True, alias=r.random() < 0.5), build(gts_spec, "traffic_light", False)
             ctx.begin_case("frames", i, target=target, n=n)
             with ctx.case_guard("frames"):
                 ests_f = mgr_mod.filter_objects(ests, False, target_labels=cfg.target_labels)
